@@ -18,7 +18,7 @@ func Load(fset *token.FileSet, pkgPath string, src []SrcFile, imp types.Importer
 	var files []*File
 	var asts []*ast.File
 	for _, s := range src {
-		f, err := parser.ParseFile(fset, s.Name, s.Text, parser.SkipObjectResolution)
+		f, err := parser.ParseFile(fset, s.Name, s.Text, parser.SkipObjectResolution|parser.ParseComments)
 		if err != nil {
 			return nil, nil, nil, err
 		}
